@@ -2,7 +2,7 @@
 Spec types/KernelArgs.tla (+ DtypeOps.tla, mc/MC_KernelArgs.tla); cfgs mc/KernelArgs_{quick,full,base}.cfg;
 replayer harness/kernelargs_replay.cpp (real JIT compilation, Serial mode, one @kernel per source).
 """
-import json, os, time
+import json, os, re, time
 from concurrent.futures import ThreadPoolExecutor
 from vlib import Broken, b_json, run_replayer
 
@@ -14,10 +14,31 @@ PARAM_DECL = {"float*": "float *%s", "const int*": "const int *%s", "S2*": "S2 *
               "long*": "long *%s", "real_t*": "real_t *%s", "float[4]": "float %s[4]", "float": "float %s"}
 
 
+ARRAY_ID = re.compile(r"^(const )?(td:)?([a-z ]+)(?:\[(\d+)\]|(\*))$")
+
+
+def param_decl(pid, name):
+    """OKL declaration of parameter id `pid` named `name`; returns (declaration, typedef lines)"""
+    if pid in PARAM_DECL:
+        return PARAM_DECL[pid] % name, []
+    m = ARRAY_ID.match(pid)
+    if not m:
+        raise Broken("no OKL spelling for parameter id %r" % pid)
+    const, td, base, n = m.group(1) or "", m.group(2), m.group(3), m.group(4)
+    tname = ("td_%s" % name) if td else base
+    decl = "%s%s %s[%s]" % (const, tname, name, n) if n else "%s%s *%s" % (const, tname, name)
+    return decl, (["typedef %s td_%s;" % (base, name)] if td else [])
+
+
 def okl_source(name, sig):
-    params = ", ".join(PARAM_DECL[p] % ("p%d" % i) for i, p in enumerate(sig))
-    return ("struct S2 { float x; float y; };\ntypedef struct { float x, y; } T2;\ntypedef float real_t;\n@kernel void %s(%s) {\n"
-            "  for (int o = 0; o < 1; ++o; @outer) {\n    for (int i = 0; i < 1; ++i; @inner) {\n    }\n  }\n}\n" % (name, params))
+    decls, typedefs = [], []
+    for i, p in enumerate(sig):
+        d, t = param_decl(p, "p%d" % i)
+        decls.append(d)
+        typedefs += t
+    return ("struct S2 { float x; float y; };\ntypedef struct { float x, y; } T2;\ntypedef float real_t;\n%s@kernel void %s(%s) {\n"
+            "  for (int o = 0; o < 1; ++o; @outer) {\n    for (int i = 0; i < 1; ++i; @inner) {\n    }\n  }\n}\n"
+            % ("".join(t + "\n" for t in typedefs), name, ", ".join(decls)))
 
 
 def replay_chunks(ctx, exe, env, cases, chunks, tag):
@@ -139,11 +160,14 @@ def run(ctx):
     ctx.traces_validated = len(passes["fresh"]) + len(passes["cached"])
     ctx.samples = [{"sig": tables[0]["s"], "rows": tables[0]["rows"][:3]},
                    {"sig": tables[len(tables) // 2]["s"], "rows": tables[len(tables) // 2]["rows"][:3]}]
-    ctx.cov.update({"signatures": len(tables), "lists_per_signature": len(tables[0]["rows"]), "decisions_checked": decisions,
+    narr = sum(1 for t in tables if len(t["s"]) == 1 and ARRAY_ID.match(t["s"][0]) and t["s"][0] not in PARAM_DECL)
+    ctx.cov.update({"signatures": len(tables), "fixed_array_signatures": narr,
+                    "lists_per_signature": max(len(t["rows"]) for t in tables), "lists_per_fixed_array_signature": min(len(t["rows"]) for t in tables), "decisions_checked": decisions,
                     "kernels_compiled": len(passes["fresh"]), "kernels_loaded_from_cache": len(passes["cached"])})
     ctx.assumptions += [
         "Serial mode, g++ -O0; one @kernel per OKL source so that every kernel is really compiled once (fresh) and really loaded from build.json in a second process (cached)",
         "signatures of <= 2 parameters; parameter types float*, const int*, struct S2*, int, const double (thorough: + double*, typedef'd struct*, char*, long*, typedef'd float*, float[4], float); vector types are not declared in Serial kernel sources and occur as memory element types only; argument lists of <= 3 over byte/float/int/struct{float,float} memories, an int scalar, occa::null (thorough: + double, float2, char, custom memories, float and double scalars)",
+        "fixed-array parameters [const] [typedef'd] T a[n] for T in char, short, int, long, long long and their unsigned forms, float, double, n in {1,2,4} (144 one-parameter signatures, quick and thorough), each tried with the empty list, a too long list and every single argument out of byte/char/short/int/long/float/double/int2/int4/long2/long4/float2/float4/double2/short2/char4 memories, a scalar and null; the element dtype of a parameter is derived in the spec from the declared spelling (occa::dtype::get<T>), not from the parser; vector-typed arrays do not compile in Serial sources",
         "scalar arguments are not type-checked by the statement: any scalar fits any value parameter",
         "occa::null is not classified by the statement: lists containing it must only get the same decision fresh and cached",
         "kernel bodies are empty loops, so a wrongly accepted list cannot corrupt memory"]
